@@ -10,6 +10,7 @@ package app
 
 import (
 	"fmt"
+	"io/ioutil"
 	"math/big"
 	"os"
 	"strings"
@@ -41,6 +42,11 @@ func (*c05Mempool) KeyImageRemoveKeys([]*lctypes.Key)   {}
 func (*c05Mempool) KeyImageReset()                      {}
 
 func TestBoundedC05Records(t *testing.T) {
+	// the flat state keeps an undo log file in the working directory: work in a scratch directory, not in /repo
+	if dir, err := ioutil.TempDir("", "verifbounded"); err == nil {
+		defer os.RemoveAll(dir)
+		os.Chdir(dir)
+	}
 	known := os.Getenv("VERIF_KNOWN")
 	sk := crypto.GenPrivKeySecp256k1()
 	metrics.PrometheusMetricInstance.Init(config.DefaultConfig(), sk.PubKey(), log.NewNopLogger())
